@@ -89,6 +89,8 @@ def gen_kwargs(rng, valid_bias=0.85):
         kw["cpus_per_node"] = rng.randint(1, 2)                    # without nodes: rejected
     elif r < 0.80:
         kw["cpus"] = rng.randint(1, 2); kw["nodes"] = rng.randint(1, 2)   # exclusive: rejected
+        if rng.random() < 0.5:
+            kw["cpus_per_node"] = rng.randint(1, 2)                   # all three at once: still exclusive (seeded C20-s5-A regrouped the checks)
     if rng.random() < 0.5:
         kw["gpus"] = rng.randint(0 if rng.random() < valid_bias else -1, 3)
     if rng.random() < 0.6:
@@ -107,6 +109,8 @@ def gen_kwargs(rng, valid_bias=0.85):
 def gen_valid(rng):
     for _ in range(50):
         kw = gen_kwargs(rng, 1.0)
+        if (kw.get("nodes") and kw.get("cpus")) or (kw.get("cpus_per_node") and not kw.get("nodes")):
+            continue          # exclusive by the property's own rule: never an operand, whatever the constructor under test says
         try:
             Resources(**kw)
             return kw
